@@ -1004,6 +1004,8 @@ def keys_across_inits(ctx, lib):
         out = os.path.join(tdir, 'kif_%d.ndjson' % h)
         rc, o = sh([binary, out] + gens, timeout=180)
         if rc != 0:
+            rc, o = sh([binary, out] + gens, timeout=180)      # a failure is a verdict only if a second run repeats it
+        if rc != 0:
             f_ = os.path.join(ctx.work, 'kifrun_%d.txt' % h); open(f_, 'w').write(json.dumps({'gens': gens, 'rc': rc, 'out': o[-500:]}))
             ctx.violation('init/fini history %s with key exhaustion in every generation: %s' % (gens, 'hang (time-out)' if rc == 124 else 'exit status %d' % rc), [f_])
             continue
@@ -1184,6 +1186,12 @@ def check_C15(ctx):
         results = list(ex.map(one, enumerate(jobs)))
     traces = []
     for k, gens, env, out, rc_ in results:
+        if rc_ != 0:
+            # a failure is a verdict only if a second run repeats it
+            _, _, _, out, rc2 = one((k, (gens, env)))
+            if rc2 == 0:
+                ctx.cov.setdefault('unrepeatable_harness_failures', []).append({'rc': rc_, 'gens': gens})
+                rc_ = 0
         if rc_ != 0:
             f_ = os.path.join(ctx.work, 'ifrun_%d.txt' % k)
             open(f_, 'w').write(json.dumps({'gens': gens, 'env': env, 'rc': rc_}))
